@@ -17,6 +17,7 @@ import (
 	"io"
 	"math/rand"
 	"strings"
+	"sync"
 	"time"
 	"unicode/utf8"
 
@@ -796,6 +797,101 @@ func (c *checker) session(m mode, rng *rand.Rand, nLines int) {
 	c.w.Class("session/" + m.String())
 }
 
+// syncExchange encodes a string that needs a synchronising literal while a peer goroutine plays
+// the server: it grants each continuation request only after the literal header has actually
+// arrived on the wire (the real protocol order; the other cases use requests granted in advance).
+// An encoder that waits for the grant before the header has left its buffer never finishes.
+type sharedBuf struct {
+	mu  sync.Mutex
+	out []byte
+}
+
+func (b *sharedBuf) Write(p []byte) (int, error) {
+	b.mu.Lock()
+	b.out = append(b.out, p...)
+	b.mu.Unlock()
+	return len(p), nil
+}
+
+func (c *checker) syncExchange(m mode, s string, sclass string) {
+	sb := &sharedBuf{}
+	e := imapwire.NewEncoder(bufio.NewWriter(sb), imapwire.ConnSideClient)
+	e.QuotedUTF8, e.LiteralMinus, e.LiteralPlus = m.utf8, m.lminus, m.lplus
+	var pending []*imapwire.ContinuationRequest
+	e.NewContinuationRequest = func() *imapwire.ContinuationRequest {
+		cr := imapwire.NewContinuationRequest()
+		sb.mu.Lock()
+		pending = append(pending, cr)
+		sb.mu.Unlock()
+		return cr
+	}
+	done := make(chan error, 1)
+	go func() {
+		e.Atom("X").SP().String(s).SP().String(s).SP().Atom("SENTINEL")
+		done <- e.CRLF()
+	}()
+	kind, desc := "string/sync-exchange", sclass+":"+qs(s)
+	granted := 0
+	deadline := time.Now().Add(20 * time.Second)
+	var encErr error
+loop:
+	for {
+		select {
+		case encErr = <-done:
+			break loop
+		default:
+		}
+		sb.mu.Lock()
+		if len(pending) > granted {
+			// a request is waiting: has its header arrived? (the stream so far must end with "{n}CRLF")
+			o := sb.out
+			if bytes.HasSuffix(o, []byte("\r\n")) {
+				line := o[:len(o)-2]
+				if i := bytes.LastIndex(line, []byte("\r\n")); i >= 0 {
+					line = line[i+2:]
+				}
+				if h, ok := wiretok.ParseLitHeader(line); ok && !h.NonSync {
+					pending[granted].Done("")
+					granted++
+				}
+			}
+		}
+		stuck := len(pending) > granted && time.Now().After(deadline)
+		sb.mu.Unlock()
+		if stuck {
+			c.viol("continuation-awaited-before-header-sent", m, kind, desc, fmt.Sprintf("the encoder waits for the continuation request of its synchronising literal, but the literal header never reached the wire (bytes written so far: %s)", hx.Hex(sb.out, 120)), sb.out)
+			sb.mu.Lock()
+			for _, cr := range pending[granted:] {
+				cr.Cancel(nil)
+			}
+			sb.mu.Unlock()
+			<-done
+			return
+		}
+		time.Sleep(50 * time.Microsecond)
+	}
+	if encErr != nil {
+		c.viol("encoder-refused-representable", m, kind, desc, encErr.Error(), sb.out)
+		return
+	}
+	wire := sb.out
+	c.legal(m, kind, desc, wire)
+	d := newDec(m, wire)
+	var x, g1, g2 string
+	if !(d.ExpectAtom(&x) && d.ExpectSP() && d.ExpectAString(&g1) && d.ExpectSP() && d.ExpectString(&g2)) {
+		c.viol("decoder-rejected", m, kind, desc, fmt.Sprintf("decoder error: %v", d.Err()), wire)
+		return
+	}
+	if g1 != s || g2 != s {
+		c.viol("value-changed", m, kind, desc, "decoded "+qs(g1)+" / "+qs(g2), wire)
+		return
+	}
+	c.tail(m, kind, desc, d, wire)
+	c.w.Metric("sync_exchanges", 1)
+	c.w.Metric("continuation_requests_granted_after_header", int64(granted))
+	c.w.Class("sync-exchange/" + m.String())
+}
+
 // ---- generators ---------------------------------------------------------------
 
 var strClasses = []string{"ends-backslash", "ends-quote", "only-specials", "empty", "atom", "space", "quote", "backslash", "nul", "cr", "lf", "crlf-cmd", "lit-lookalike", "utf8", "badutf8", "mixed", "nil-word", "paren"}
@@ -987,6 +1083,23 @@ func body(w *hx.W) {
 		for _, n := range []int{0, 1, 4096, 4097, 70000} {
 			c.literalStream(m, []byte(genString(rng, "mixed", n)))
 			w.CaseStr(fmt.Sprintf("%s|lit|%d", m, n))
+		}
+	}
+	// real synchronising exchanges (client-side encoders without LITERAL+)
+	si := 0
+	for _, m := range modes {
+		if !m.client || m.lplus {
+			continue
+		}
+		for _, sc := range []string{"nul", "crlf-cmd", "badutf8", "utf8", "lf", "atom"} {
+			for _, n := range []int{1, 63, 4096, 4097, 5000} {
+				si++
+				if !w.Mine(si) {
+					continue
+				}
+				c.syncExchange(m, genString(rng, sc, n), sc)
+				w.CaseStr(fmt.Sprintf("%s|sync|%s|%d", m, sc, n))
+			}
 		}
 	}
 	// long-lived encoder/decoder pairs
